@@ -83,9 +83,63 @@ Proof. exact (run_window_zero_panics pick mind lcs m r). Qed.
    start_time = u64::MAX (the marker Lifecycle::merge leaves in a merged lifecycle) plus any timestamp > 0,
    and a minimum delay within 1000 s of u64::MAX *)
 Theorem C10_u64_overflow_panics :
-  run pick_first 3 0 (fixed (table_of (Some [(1, u64max)]))) (tag_msgs 0 [(0, 1000000, 1, 1, 0, 1)]) = Panic site_add_overflow /\
-  run pick_first 3 (u64max - 5) (fixed (table_of (Some []))) (tag_msgs 0 [(0, 1000000, 1, 1, 0, 1)]) = Panic site_add_overflow.
+  run pick_first 3 0 (fixed (table_of (plain_table [(1, u64max)]))) (tag_msgs 0 [(0, 1000000, 1, 1, 0, 1)]) = Panic site_add_overflow /\
+  run pick_first 3 (u64max - 5) (fixed (table_of (plain_table []))) (tag_msgs 0 [(0, 1000000, 1, 1, 0, 1)]) = Panic site_add_overflow.
 Proof. split; vm_compute; reflexivity. Qed.
+
+(* what the function takes from a lifecycle table entry: the field start_time and nothing else.  Two (changing) tables
+   whose entries agree on start_time (and on presence) under the lifecycle ids of the stream's messages — whatever
+   else differs: being a resume, resume_start_time(), resume_time(), end_time(), suspend_duration(), message counts —
+   give the same run for every heap behaviour: the same delivered sequence, or the same panic *)
+Theorem C10_sort_reads_only_start_time pick w mind (t1 t2 : nat -> nat -> item_table) input :
+  (forall m, In m input -> m_ctrl m = false -> forall i np,
+     option_map li_start (t1 i np (m_lc m)) = option_map li_start (t2 i np (m_lc m))) ->
+  run pick w mind (fun i np => table_of_items (t1 i np)) input =
+  run pick w mind (fun i np => table_of_items (t2 i np)) input.
+Proof.
+  intros H. apply run_ext. intros m Hm Hc i np. specialize (H m Hm Hc i np).
+  unfold lc_start, table_of_items, table_by.
+  destruct (t1 i np (m_lc m)) as [a|], (t2 i np (m_lc m)) as [b|]; cbn in H; try discriminate; [|reflexivity].
+  inversion H. reflexivity.
+Qed.
+
+(* the sort key of every delivered message (fixed table) is a function of (start_time of the entry under the
+   message's lifecycle id — 0 without entry —, timestamp, reception time): start_time + timestamp capped at the
+   reception time; the reception time for control requests *)
+Theorem C10_sort_key_from_start_time pick w mind (t : item_table) input o :
+  run_entries pick w mind (fixed (table_of_items t)) input = Ok o ->
+  Forall (fun e => let m := snd e in
+            fst e = if m_ctrl m then m_rt m
+                    else N.min (match t (m_lc m) with Some it => li_start it | None => 0 end + m_ts m * 100) (m_rt m)) o.
+Proof.
+  intros H. apply run_entries_key_spec in H. eapply Forall_impl; [|exact H]. cbn beta zeta. intros e He. rewrite He.
+  unfold calc_spec, lc_start, table_of_items, table_by. destruct (t (m_lc (snd e))); reflexivity.
+Qed.
+
+(* ... and it matters: a table with a RESUMED lifecycle (id 1, ECU 1) whose start_time (91 s) was moved to before the
+   start recorded for the lifecycle it resumes (100 s; so resume_start_time() = 100 s + 1 us) and a second ECU's
+   lifecycle (id 2, start 50 s).  Both messages are within the 2 s bound; sorted by start_time + timestamp the later
+   received message (200.0 s) leaves first; keyed by resume_start_time() it would be capped at its reception time and
+   leave last *)
+Definition rs_items : item_table :=
+  items_of (Some [(1, (91000000, 1, 100000001, 96000000, 200000000, 0, 3)); (2, (50000000, 0, 50000000, 50000000, 200500000, 0, 2))]).
+Definition rs_input := tag_msgs 0 [(0, 200600000, 2, 1505000, 0, 2); (1, 201500000, 1, 1090000, 0, 1)].
+Example C10_resume_start_time_is_not_the_key :
+  StronglySorted (fun a b => m_rt a <= m_rt b) rs_input /\
+  StronglySorted (fun a b => m_index a < m_index b) rs_input /\
+  Forall (fun m => m_rt m - calc_spec (table_of_items rs_items) m <= 2000000) rs_input /\
+  (exists out, run pick_first 3 2000000 (fixed (table_of_items rs_items)) rs_input = Ok out /\ map m_tag out = [1; 0]) /\
+  (exists out, run pick_first 3 2000000 (fixed (table_by li_resume_start rs_items)) rs_input = Ok out /\ map m_tag out = [0; 1]).
+Proof.
+  split; [repeat constructor; vm_compute; discriminate|].
+  split; [repeat constructor; vm_compute; reflexivity|].
+  split; [repeat constructor; vm_compute; discriminate|].
+  split.
+  - destruct (run pick_first 3 2000000 (fixed (table_of_items rs_items)) rs_input) as [out| |] eqn:E; try (vm_compute in E; discriminate).
+    exists out. split; [reflexivity|]. vm_compute in E. inversion E. reflexivity.
+  - destruct (run pick_first 3 2000000 (fixed (table_by li_resume_start rs_items)) rs_input) as [out| |] eqn:E; try (vm_compute in E; discriminate).
+    exists out. split; [reflexivity|]. vm_compute in E. inversion E. reflexivity.
+Qed.
 
 (* the acceptor of the correspondence check only accepts outputs of runs of the model *)
 Lemma list_N_eqb_eq a : forall b, list_N_eqb a b = true -> a = b.
@@ -104,7 +158,7 @@ Qed.
 
 (* non-vacuity: two ECUs with one lifecycle each in parallel, a control request, delays up to 0.4 s under a
    0.5 s bound, a window of 2 s that matures: the hypotheses hold, the run returns and really reorders *)
-Definition nv_lcs := table_of (Some [(1, 1000000000); (2, 1000200000)]).
+Definition nv_lcs := table_of (plain_table [(1, 1000000000); (2, 1000200000)]).
 Definition nv_input := tag_msgs 0
   [(0, 1001000000, 1, 9000, 0, 1); (1, 1001100000, 2, 6000, 0, 2); (2, 1001200000, 1, 5, 23, 1);
    (3, 1002300000, 2, 19000, 0, 2); (4, 1002400000, 1, 20000, 0, 1); (5, 1009000000, 1, 90000, 0, 1)].
@@ -137,5 +191,8 @@ Print Assumptions C10_released_older_than_min_delay.
 Print Assumptions C10_sort_deterministic_if_indices_distinct.
 Print Assumptions C10_window_size_zero_panics.
 Print Assumptions C10_u64_overflow_panics.
+Print Assumptions C10_sort_reads_only_start_time.
+Print Assumptions C10_sort_key_from_start_time.
+Print Assumptions C10_resume_start_time_is_not_the_key.
 Print Assumptions C10_acceptor_sound.
 Print Assumptions C10_nonvacuous.
